@@ -432,8 +432,9 @@ class EPng(El):
 
 class EHistToGraph(El):
     name = "HistToGraph"
-    a_kinds = ["hist1-ctx", "hist1-bare", "hist1-tograph-true"]
-    b_kinds = COMMON_B + ["str", "graph", "hist-tograph-false", "nondict-histogram"]
+    a_kinds = ["hist1-ctx", "hist1-bare", "hist1-tograph-true", "hist-ctx-bins"]
+    b_kinds = COMMON_B + ["str", "graph", "hist-tograph-false", "nondict-histogram",
+                          "hist-ctx-bins-tograph-false"]
 
     def options(self, tape):
         return {"coord": tape.choice(["left", "right", "middle"], "get_coordinate"),
@@ -447,6 +448,9 @@ class EHistToGraph(El):
             return (hist1(i), {"plot": {"name": "a%d" % i}})
         if kind == "hist1-bare":
             return hist1(i)
+        if kind == "hist-ctx-bins":
+            return (lena.structures.histogram([0, 1, 2], [(3 + i, {"cell": {"c": 1}}), (5, {"cell": {"c": 1}})]),
+                    {"plot": {"name": "a%d" % i}})
         return (hist1(i), {"histogram": {"to_graph": True}})
 
     def make_b(self, kind, j, w):
@@ -458,6 +462,9 @@ class EHistToGraph(El):
             return (hist1(j), {"histogram": {"to_graph": False, "l": [j]}})
         if kind == "nondict-histogram":
             return (j, {"histogram": "raw"})
+        if kind == "hist-ctx-bins-tograph-false":
+            return (lena.structures.histogram([0, 1, 2], [(j, {"cell": {"c": [j]}}), (5, {"cell": {"c": [5]}})]),
+                    {"histogram": {"to_graph": False}})
         return common_b(kind, j, w.fs)
 
 
@@ -541,17 +548,33 @@ def plus_one(value):
     return data + 1
 
 
+class Enumerate(object):
+    """run element whose output depends on how its input flow is cut: (index in this run, value)"""
+
+    def run(self, flow):
+        for i, v in enumerate(flow):
+            data, context = lena.flow.get_data_context(v)
+            if context:
+                yield ((i, data), context)
+            else:
+                yield (i, data)
+
+
 class ERunIf(El):
     name = "RunIf"
     a_kinds = ["int", "int-ctx"]
     b_kinds = ["float", "tuple", "foreign", "none", "list", "pair-foreign", "str", "float-ctx", "hist"]
 
     def options(self, tape):
-        return {"n": 1 + tape.draw(2, "seqlen"), "selector": tape.choice(["callable", "type"], "selector")}
+        return {"n": 1 + tape.draw(2, "seqlen"), "selector": tape.choice(["callable", "type"], "selector"),
+                "inner": tape.choice(["elementwise", "enumerating"], "inner")}
 
     def build(self, o, w):
         sel = is_int_data if o["selector"] == "callable" else int
-        return lena.flow.RunIf(sel, *([plus_one] * o["n"]))
+        inner = [plus_one] * o["n"]
+        if o["inner"] == "enumerating":
+            inner.append(Enumerate())
+        return lena.flow.RunIf(sel, *inner)
 
     def make_a(self, kind, i, w):
         if kind == "int":
